@@ -5,6 +5,7 @@ import WP.Model.Admission
 import WP.Model.DynArray
 import WP.Model.PinoOffset
 import WP.Model.Sdk
+import WP.Model.TransferFee
 /-
   Line-protocol driver: one operation per line on stdin, one canonical result line on stdout.
   `ok <fields…>` | `err <ErrorName>` | `bad-op`.  See DESIGN.md Appendix B.
@@ -349,6 +350,11 @@ partial def loop (h : IO.FS.Stream) (out : IO.FS.Stream) (hist : Option HistStat
     let (dyn', s) := dynLine dyn rest
     out.putStrLn s
     loop h out hist bm dyn'
+  | "H" :: "xswap" :: rest =>
+    match hist with
+    | none => out.putStrLn "bad-op"
+    | some st => out.putStrLn (((xswapLine st rest).getD "bad-op") ++ " | " ++ digest st)
+    loop h out hist bm dyn
   | "H" :: rest =>
     let (hist', s) := histLine hist rest
     out.putStrLn s
@@ -361,6 +367,19 @@ partial def loop (h : IO.FS.Stream) (out : IO.FS.Stream) (hist : Option HistStat
     loop h out hist bm dyn
   | "sda" :: _ | "sdb" :: _ | "sna" :: _ | "snb" :: _ | "sle" :: _ | "spt" :: _ | "slp" :: _ | "stp" :: _ =>
     out.putStrLn ((sdkLine toks).getD "bad-op")
+    loop h out hist bm dyn
+  | ["tfee", bps, mx, _fut, amt, inc] =>
+    match bps.toNat?, mx.toNat?, amt.toNat?, b01 inc with
+    | some bps, some mx, some amt, some inc =>
+      let f : TFee := { bps := bps, maxFee := mx }
+      if inc then
+        match includedAmount (some f) amt with
+        | .ok (v, fee) => out.putStrLn s!"ok {v} {fee}"
+        | .error e => out.putStrLn ("err " ++ e.name)
+      else
+        let r := excludedAmount (some f) amt
+        out.putStrLn s!"ok {r.1} {r.2}"
+    | _, _, _, _ => out.putStrLn "bad-op"
     loop h out hist bm dyn
   | "afm" :: rest =>
     out.putStrLn ((afmLine rest).getD "bad-op")
